@@ -893,3 +893,240 @@ Proof.
   induction ops as [|o rest IH]; intros st H; simpl in *; [exact I|].
   apply andb_true_iff in H. destruct H as [H1 H2]. split; [apply legalb_sound; assumption|apply IH; assumption].
 Qed.
+
+(* ------------------------------------------------------------------ the writer's own pointer *)
+(* A live writer that has committed (prevCommit <> 0) finds a pointer with its start in the
+   index.  This holds in every history whose deletes stay at or before the start of every
+   open writer — what unary.DB.delete's control gate enforces. *)
+Definition own_present (ps : list pointer) (wr : writer) : Prop :=
+  w_closed wr = false -> w_prev wr <> 0 -> exists own, In own ps /\ p_start own = w_start wr.
+Definition Coh (st : db) : Prop := map_Forall (fun _ wr => own_present (d_ptrs st) wr) (d_writers st).
+Definition gated (st : db) (o : op) : Prop :=
+  match o with
+  | Delete _ b => map_Forall (fun _ wr => w_closed wr = false -> b <= w_start wr) (d_writers st)
+  | _ => True
+  end.
+Fixpoint gated_run (st : db) (ops : list op) : Prop :=
+  match ops with
+  | [] => True
+  | o :: rest => gated st o /\ gated_run (fst (step st o)) rest
+  end.
+
+Lemma own_present_mono ps ps' wr :
+  (forall q, In q ps -> exists q', In q' ps' /\ p_start q' = p_start q) ->
+  own_present ps wr -> own_present ps' wr.
+Proof.
+  intros Hm Ho Hc Hp. destruct (Ho Hc Hp) as (own & Hin & Hs).
+  destruct (Hm own Hin) as (q' & Hq' & Hs'). exists q'. split; [assumption|congruence].
+Qed.
+
+Lemma insert_mem ps p ps' : idx_ok ps -> ptr_wf p -> insert ps p = inl ps' ->
+  In p ps' /\ forall q, In q ps -> In q ps'.
+Proof.
+  intros Hok Hwf H. destruct (insert_ok _ _ _ Hok Hwf H) as (_ & n & ->). split.
+  - apply in_or_app. right. left. reflexivity.
+  - intros q Hq. rewrite <- (firstn_skipn n ps) in Hq. apply in_app_or in Hq.
+    apply in_or_app. destruct Hq; [left|right; right]; assumption.
+Qed.
+
+Lemma update_mem ps p ps' : idx_ok ps -> ptr_wf p -> update ps p = inl ps' ->
+  In p ps' /\ forall q, In q ps -> exists q', In q' ps' /\ p_start q' = p_start q.
+Proof.
+  intros Hok Hwf H. destruct (update_ok _ _ _ Hok Hwf H) as (_ & k & old & Hg & Hs & ->).
+  assert (Hp : In p (firstn (Z.to_nat k) ps ++ p :: skipn (S (Z.to_nat k)) ps)).
+  { apply in_or_app. right. left. reflexivity. }
+  split; [assumption|]. intros q Hq.
+  assert (Hdec : ps = firstn (Z.to_nat k) ps ++ old :: skipn (S (Z.to_nat k)) ps).
+  { pose proof (getp_Some _ _ _ Hg) as Hk. unfold getp in Hg. destruct (Z.ltb_spec k 0); [lia|].
+    rewrite <- (firstn_skipn (Z.to_nat k) ps) at 1. f_equal.
+    clear -Hg. revert Hg. generalize (Z.to_nat k). induction ps as [|x l IH]; intros [|n] Hg; simpl in *; try discriminate.
+    - inversion Hg. reflexivity.
+    - apply IH. assumption. }
+  rewrite Hdec in Hq. apply in_app_or in Hq. destruct Hq as [Hq|[<-|Hq]].
+  - exists q. split; [apply in_or_app; left; assumption|reflexivity].
+  - exists p. split; [assumption|congruence].
+  - exists q. split; [apply in_or_app; right; right; assumption|reflexivity].
+Qed.
+
+Lemma delete_end_cases ps b ed e eo b' :
+  idx_ok ps -> ts_in_range b ->
+  delete_end lin_resolver ps b = inl (Some (ed, e, eo, b')) ->
+  getp ps ed = Some e /\
+  ((p_start e <= b < p_end e /\ eo = Z.of_N (p_size e) - (b - p_start e) /\ b' = b) \/
+   (p_end e <= b /\ eo = 0 /\ b' = p_end e)).
+Proof.
+  intros Hok Hb. unfold delete_end.
+  destruct (usearch ps (ts_span_range b 0)) as [ed0 [|]] eqn:Eue.
+  - destruct (usearch_point_exact _ _ _ Hok Hb Eue) as (e0 & Hg & Hr). rewrite Hg. simpl.
+    intros H. inversion H; subst. split; [assumption|]. left. repeat split; lia.
+  - destruct (usearch_point_inexact _ _ _ Hok Hb Eue) as (Hi & HL & HR).
+    destruct (Z.eqb_spec ed0 (-1)); [discriminate|].
+    destruct (getp_lookup ps ed0) as [e0 Hg]; [lia|]. rewrite Hg.
+    intros H. inversion H; subst. split; [assumption|]. right.
+    split; [apply (HL ed e Hg); lia|]. split; reflexivity.
+Qed.
+
+(* a gated delete keeps (a pointer with the start of) every pointer starting at or after b *)
+Lemma delete_keeps_after fs ps a b own :
+  idx_ok ps -> Forall (ptr_in_files fs) ps -> Forall file_small fs ->
+  ts_in_range a -> ts_in_range b ->
+  In own ps -> b <= p_start own ->
+  exists own', In own' (fst (delete lin_resolver lin_resolver ps a b)) /\ p_start own' = p_start own.
+Proof.
+  intros Hok Hpf Hsm Ha Hb Hin Hge. unfold delete.
+  assert (Hsame : exists own', In own' ps /\ p_start own' = p_start own) by (exists own; auto).
+  destruct (delete_start lin_resolver ps a) as [[[[[sd s] so] a']|]|r] eqn:Es; [|simpl; auto|simpl; auto].
+  destruct (delete_start_spec _ _ _ _ _ _ Hok Ha Es) as (Hgs & Ha' & Hso & _ & _).
+  destruct (delete_end lin_resolver ps b) as [[[[[ed e] eo] b']|]|r] eqn:Ee; [|simpl; auto|simpl; auto].
+  destruct (delete_end_cases _ _ _ _ _ _ Hok Hb Ee) as (Hgee & Hcase).
+  unfold delete_apply.
+  destruct (validate_delete ps sd ed so eo) as [[[ok ie] so'] eo'] eqn:Ev.
+  destruct ok; [|simpl; auto]. simpl.
+  destruct (validate_delete_true _ _ _ _ _ _ _ _ _ _ Hgs Hgee Ev) as (Hso' & Heo' & Hord & _).
+  pose proof (getp_Some _ _ _ Hgs) as Hsdr. pose proof (getp_Some _ _ _ Hgee) as Hedr.
+  assert (Hlen1 : length (firstn (Z.to_nat sd) ps) = Z.to_nat sd).
+  { rewrite firstn_length. unfold zlen in *. lia. }
+  rewrite (firstn_app_exact _ _ _ Hlen1), (skipn_app_exact _ _ _ Hlen1).
+  destruct (In_getp _ _ Hin) as [j Hj]. pose proof (getp_Some _ _ _ Hj) as Hjr.
+  pose proof (idx_ok_wf _ _ _ Hok Hj) as [_ Holt]. pose proof (idx_ok_wf _ _ _ Hok Hgee) as [_ Helt].
+  destruct (Z_lt_le_dec ed j) as [Hlt|Hle].
+  - (* untouched: after the end domain *)
+    exists own. split; [|reflexivity]. apply in_or_app. right. apply in_or_app. right. apply in_or_app. right.
+    rewrite <- (firstn_skipn (Z.to_nat (ed + 1)) ps) in Hj.
+    rewrite getp_app_r in Hj; rewrite zlen_firstn in * by lia; [|lia]. eapply getp_In; eauto.
+  - assert (j = ed /\ p_start e = b /\ b' = b /\ eo = Z.of_N (p_size e)) as (-> & Hsb & -> & ->).
+    { destruct (Z.eq_dec j ed) as [->|Hne].
+      - rewrite Hgee in Hj. inversion Hj; subst own. destruct Hcase as [(? & ? & ?)|(? & ? & ?)]; [|lia].
+        repeat split; lia.
+      - pose proof (idx_ok_lookup_lt _ Hok j ed own e Hj Hgee ltac:(lia)).
+        destruct Hcase as [(? & ? & ?)|(? & ? & ?)]; lia. }
+    rewrite Hgee in Hj. inversion Hj; subst own.
+    rewrite Forall_forall in Hpf. destruct (Hpf e (getp_In _ _ _ Hgee)) as (fE & _ & _ & Hz).
+    unfold clampz in Heo'. assert (Hnz : eo' <> 0) by lia.
+    destruct (Z.eqb_spec eo' 0); [contradiction|].
+    eexists. split; [apply in_or_app; right; apply in_or_app; right; apply in_or_app; left; left; reflexivity|].
+    unfold p_start. simpl. unfold p_start in Hsb. lia.
+Qed.
+
+Lemma step_coh st o : Inv st -> legal st o -> gated st o -> Coh st -> Coh (fst (step st o)).
+Proof.
+  intros HI Hl Hg HC. pose proof HI as (Hidx & Hpf & Hfo & Hfs & Hw).
+  destruct o as [w s e k|w d|w e k|w|a b]; simpl.
+  - unfold open_writer. destruct (d_writers st !! w); [exact HC|].
+    destruct (negb (cfg_validate s e)); [exact HC|]. destruct (idx_overlap _ _); [exact HC|].
+    destruct (acquire _ _ _) as [[k' size] fs']. unfold Coh. simpl.
+    apply map_Forall_insert_2; [|exact HC]. intros _ Hp. simpl in Hp. congruence.
+  - unfold write. destruct (d_writers st !! w) as [wr|] eqn:Ew; [|exact HC].
+    destruct (w_closed wr) eqn:Ec; [exact HC|]. destruct (get_file _ _); [|exact HC].
+    unfold Coh. simpl. apply map_Forall_insert_2; [|exact HC].
+    pose proof (HC w wr Ew) as Ho. intros _ Hp. simpl in *. apply Ho; assumption.
+  - destruct Hl as [He _]. unfold commit. destruct (d_writers st !! w) as [wr|] eqn:Ew; [|exact HC].
+    destruct (w_closed wr) eqn:Ec; [exact HC|]. destruct (w_preset wr && _); [exact HC|].
+    destruct (get_file (d_files st) (w_file wr)) as [f|] eqn:Ef; [|exact HC].
+    destruct (N.eqb_spec (f_len f) 0) as [|Hlen]; [exact HC|].
+    destruct (resolve_commit_end (d_cap st) wr e) as [ce sw] eqn:Er.
+    destruct (validate_commit_range wr ce sw) eqn:Ev; [simpl|exact HC].
+    destruct (Hw w wr Ew) as [Hws Hwe].
+    assert (Hce : ts_in_range ce).
+    { unfold resolve_commit_end in Er. destruct (d_cap st <=? w_fsize wr)%N; [inversion Er; subst; assumption|].
+      destruct (w_preset wr); inversion Er; subst; assumption. }
+    assert (Hlt : w_start wr < ce).
+    { unfold validate_commit_range in Ev.
+      destruct (negb (ts_is_zero (w_prev wr)) && negb (sw && w_preset wr) && (ce <? w_prev wr)); [discriminate|].
+      destruct (Z.ltb_spec (w_start wr) ce); [assumption|discriminate]. }
+    set (ptr := mkPtr (mkTR (w_start wr) ce) (w_file wr) (u32 (f_off f)) (u32 (f_len f))).
+    assert (Hpwf : ptr_wf ptr) by (split; [split; assumption|assumption]).
+    assert (Hmem : forall ps', (if ts_is_zero (w_prev wr) then insert (d_ptrs st) ptr else update (d_ptrs st) ptr) = inl ps' ->
+               In ptr ps' /\ forall q, In q (d_ptrs st) -> exists q', In q' ps' /\ p_start q' = p_start q).
+    { intros ps' Hr. destruct (ts_is_zero (w_prev wr)).
+      - destruct (insert_mem _ _ _ Hidx Hpwf Hr) as [H1 H2]. split; [assumption|].
+        intros q Hq. exists q. auto.
+      - apply update_mem; assumption. }
+    destruct (if ts_is_zero (w_prev wr) then insert (d_ptrs st) ptr else update (d_ptrs st) ptr) as [ps'|err];
+      [|exact HC].
+    destruct (Hmem ps' eq_refl) as [Hptr Hkeep].
+    assert (Hothers : map_Forall (fun _ wr0 => own_present ps' wr0) (d_writers st)).
+    { intros w0 wr0 Hw0. eapply own_present_mono; [exact Hkeep|]. exact (HC w0 wr0 Hw0). }
+    destruct sw.
+    + destruct (acquire _ _ _) as [[k' size] fs2]. unfold Coh. simpl.
+      apply map_Forall_insert_2; [|exact Hothers]. intros _ Hp. simpl in Hp. congruence.
+    + unfold Coh. simpl. apply map_Forall_insert_2; [|exact Hothers].
+      intros _ _. simpl. exists ptr. split; [assumption|reflexivity].
+  - unfold close_writer. destruct (d_writers st !! w) as [wr|] eqn:Ew; [|exact HC].
+    destruct (w_closed wr); [exact HC|]. unfold Coh. simpl.
+    apply map_Forall_insert_2; [|exact HC]. intros Hc. simpl in Hc. discriminate.
+  - destruct Hl as [[Ha Hb] _]. simpl in Hg.
+    destruct (delete lin_resolver lin_resolver (d_ptrs st) a b) as [ps' r] eqn:Ed. unfold Coh. simpl.
+    intros w0 wr0 Hw0 Hc Hp. destruct (HC w0 wr0 Hw0 Hc Hp) as (own & Hin & Hs).
+    pose proof (Hg w0 wr0 Hw0 Hc) as Hb0.
+    destruct (delete_keeps_after (d_files st) (d_ptrs st) a b own Hidx Hpf Hfs Ha Hb Hin ltac:(lia)) as (own' & Hin' & Hs').
+    rewrite Ed in Hin'. simpl in Hin'. exists own'. split; [assumption|congruence].
+Qed.
+
+Theorem run_coh : forall ops st,
+  Inv st -> Coh st -> legal_run st ops -> gated_run st ops -> Coh (run st ops).
+Proof.
+  induction ops as [|o rest IH]; intros st HI HC Hl Hg; simpl; [assumption|].
+  destruct Hl as [Hl Hrest]. destruct Hg as [Hg Hgrest].
+  apply IH; [apply step_inv|apply step_coh| |]; assumption.
+Qed.
+
+Lemma Coh_init nominal cap : Coh (init nominal cap).
+Proof. unfold Coh, init. simpl. apply map_Forall_empty. Qed.
+
+(* the form the commit lemma consumes *)
+Lemma coh_own st w wr : Coh st -> d_writers st !! w = Some wr -> w_closed wr = false ->
+  w_prev wr <> 0 -> exists i own, getp (d_ptrs st) i = Some own /\ p_start own = w_start wr.
+Proof.
+  intros HC Hw Hc Hp. destruct (HC w wr Hw Hc Hp) as (own & Hin & Hs).
+  destruct (In_getp _ _ Hin) as [i Hi]. eauto.
+Qed.
+
+(* with the own pointer present, update never reaches its "inconceivable" branches *)
+Lemma update_clean ps p k own :
+  idx_ok ps -> ptr_wf p -> getp ps k = Some own -> p_start own = p_start p ->
+  (exists ps', update ps p = inl ps') \/ update ps p = inr EConflict.
+Proof.
+  intros Hok Hwf Hk He. unfold update.
+  destruct ps as [|x l] eqn:E; [apply getp_Some in Hk; unfold zlen in Hk; simpl in Hk; lia|].
+  rewrite <- E in *. rewrite (update_position ps p k own Hok Hwf Hk He), Hk.
+  destruct (Z.eqb_spec (p_start own) (p_start p)); [simpl|contradiction].
+  destruct (negb (k =? 0) && _); [auto|]. destruct (negb (k =? zlen ps - 1) && _); [auto|]. left. eauto.
+Qed.
+
+(* In a state where the invariant and the own-pointer coherence hold, a commit never
+   panics and never reports "range not found": it succeeds or fails with one of the
+   declared error classes. *)
+Lemma commit_clean st w e k : Inv st -> Coh st -> ts_in_range e ->
+  snd (commit st w e k) <> RErr EPanic /\ snd (commit st w e k) <> RErr ENotFound.
+Proof.
+  intros HI HC He. pose proof HI as (Hidx & Hpf & Hfo & Hfs & Hw). unfold commit.
+  destruct (d_writers st !! w) as [wr|] eqn:Ew; [|split; discriminate].
+  destruct (w_closed wr) eqn:Ec; [split; discriminate|]. destruct (w_preset wr && _); [split; discriminate|].
+  destruct (get_file (d_files st) (w_file wr)) as [f|] eqn:Ef; [|split; discriminate].
+  destruct (N.eqb_spec (f_len f) 0) as [|Hlen]; [split; discriminate|].
+  destruct (resolve_commit_end (d_cap st) wr e) as [ce sw] eqn:Er.
+  destruct (validate_commit_range wr ce sw) eqn:Ev; [simpl|split; discriminate].
+  destruct (Hw w wr Ew) as [Hws Hwe].
+  assert (Hce : ts_in_range ce).
+  { unfold resolve_commit_end in Er. destruct (d_cap st <=? w_fsize wr)%N; [inversion Er; subst; assumption|].
+    destruct (w_preset wr); inversion Er; subst; assumption. }
+  assert (Hlt : w_start wr < ce).
+  { unfold validate_commit_range in Ev.
+    destruct (negb (ts_is_zero (w_prev wr)) && negb (sw && w_preset wr) && (ce <? w_prev wr)); [discriminate|].
+    destruct (Z.ltb_spec (w_start wr) ce); [assumption|discriminate]. }
+  set (ptr := mkPtr (mkTR (w_start wr) ce) (w_file wr) (u32 (f_off f)) (u32 (f_len f))).
+  assert (Hpwf : ptr_wf ptr) by (split; [split; assumption|assumption]).
+  assert (Hr : (exists ps', (if ts_is_zero (w_prev wr) then insert (d_ptrs st) ptr else update (d_ptrs st) ptr) = inl ps') \/
+               (if ts_is_zero (w_prev wr) then insert (d_ptrs st) ptr else update (d_ptrs st) ptr) = inr EConflict \/
+               (if ts_is_zero (w_prev wr) then insert (d_ptrs st) ptr else update (d_ptrs st) ptr) = inr EOther).
+  { unfold ts_is_zero, ts_min. destruct (Z.eqb_spec (w_prev wr) 0) as [Hz|Hnz].
+    - unfold insert. destruct (p_file ptr =? 0)%N; [auto|].
+      destruct (d_ptrs st) as [|x l] eqn:E; [left; eauto|]. rewrite <- E.
+      destruct (after_last _ _); [left; eauto|]. destruct (negb (before_first _ _)); [|left; eauto].
+      destruct (usearch _ _) as [i [|]]; [auto|left; eauto].
+    - destruct (coh_own st w wr HC Ew Ec Hnz) as (i & own & Hg & Hs).
+      destruct (update_clean (d_ptrs st) ptr i own Hidx Hpwf Hg Hs) as [H|H]; auto. }
+  destruct Hr as [[ps' ->]|[->| ->]]; [|split; discriminate|split; discriminate].
+  destruct sw; [destruct (acquire _ _ _) as [[? ?] ?]|]; split; discriminate.
+Qed.
